@@ -14,10 +14,13 @@ timeout = int(sys.argv[2])
 jobs = int(sys.argv[3])
 chunk = int(sys.argv[4]) if len(sys.argv) > 4 else 120
 cc.load_costs = lambda: {}
+os.environ["VERIF_INCLUDE_UNMEASURED"] = "1"
+prefix = sys.argv[5] if len(sys.argv) > 5 else ""
 bs, meta = cc.build("thorough", 0, "C01")
 b = bs[0]
 costs = json.load(open(out)) if os.path.exists(out) else {}
-names = [n for n in b.specs if not b.specs[n].get("canary") and "containers::" in n and n.split("::")[-1] not in costs]
+names = [n for n in b.specs if not b.specs[n].get("canary") and "containers::" in n and n.split("::")[-1] not in costs
+         and n.split("::")[-1].startswith(prefix)]
 print("to measure:", len(names), flush=True)
 scratch = vlib.make_scratch()
 try:
